@@ -73,6 +73,7 @@ def run(ctx):
     current_point(ctx)
     no_current_point(ctx)
     start_required(ctx)
+    transform_tolerates_missing_points(ctx)
     radius_divisors(ctx)
     progress(ctx, fn)
     inline_close(ctx, branches)
@@ -194,6 +195,10 @@ def implies(later, earlier):
 def operands(ctx, branches):
     for letter in sorted(branches):
         b = branches[letter]
+        if getattr(b, "batched", None):
+            ctx.ob("R09.1", "SVGLexicalParser.parse[%s]:operand groups reach the builder one by one" % letter, False, "; ".join(t for _, t in b.batched), b.batched[0][0],
+                   "the operands of the whole command are collected before the builder is called: when a later group is malformed (`M 10 10 20 20 30`) the ValueError is raised before the segments of the valid groups are appended - the longest valid prefix is lost")
+            continue
         if b.unknown:
             raise AnalysisError("R09.1", "branch %r: idiom not recognised: %s" % (letter, b.unknown[:3]))
         reads = []  # (var, reader) of the current iteration
@@ -435,6 +440,48 @@ def no_current_point(ctx):
             detail = "; ".join("line %d: %s" % d for d in sm.cur_deref[:3]) or ("raises %s" % exc if exc else "current point not used as a point")
             ctx.ob("R09.3", cons, ok, detail, sm.cur_deref[0][0] if sm.cur_deref else fn.lineno,
                    "the missing current point is used as a point on this path before (or without) the ValueError guard: AttributeError/TypeError instead of ValueError", sample=False)
+
+
+# --------------------------------------------------------------------------- R09.8 (transforming)
+def transform_tolerates_missing_points(ctx, rule="R09.8"):
+    """A retained segment may lack a point: PathSegment.__init__ starts with start = end = None, the curve constructors store
+    `Point(c) if c is not None else None`, and the builders hand them a missing current point (known findings of R09.8).
+    "Transforming the result can never fail afterwards": every `self.<field> *= other` in a segment's __imul__ whose field
+    the constructors may leave None must be dominated by `self.<field> is not None`."""
+    from ..flow import dominated
+    from .c02 import SEGMENTS, point_fields
+
+    n = 0
+    for cname in SEGMENTS:
+        nullable = set()
+        for c in ctx.m.mro(cname):
+            init = ctx.m.classes[c].methods.get("__init__")
+            if init is None:
+                continue
+            for st in ast.walk(init):
+                if isinstance(st, ast.Assign):
+                    for t in st.targets:
+                        ch = attr_chain(t)
+                        if ch and len(ch) == 2 and ch[0] == "self":
+                            v = st.value
+                            if (isinstance(v, ast.Constant) and v.value is None) or (isinstance(v, ast.IfExp) and any(isinstance(x, ast.Constant) and x.value is None for x in (v.body, v.orelse))):
+                                nullable.add(ch[1])
+        fn = ctx.fn("%s.__imul__" % cname, rule)
+        for s in ast.walk(fn):
+            if isinstance(s, ast.AugAssign) and isinstance(s.op, (ast.Mult, ast.MatMult)) and isinstance(s.target, ast.Attribute) and isinstance(s.target.value, ast.Name) \
+                    and s.target.value.id == "self" and s.target.attr in nullable:
+                f = s.target.attr
+                n += 1
+
+                def atom_test(test, positive, f=f):
+                    if isinstance(test, ast.Compare) and len(test.ops) == 1 and isinstance(test.comparators[0], ast.Constant) and test.comparators[0].value is None \
+                            and attr_chain(test.left) == ["self", f] and isinstance(test.ops[0], (ast.Is, ast.IsNot)):
+                        return isinstance(test.ops[0], ast.IsNot) == positive
+                    return False
+
+                ctx.ob(rule, "%s.__imul__[%s may be missing]" % (cname, f), dominated(s, fn, atom_test), "", s.lineno,
+                       "the constructors can leave this point None (a curve or close with no current point / subpath start): multiplying it raises AttributeError when the path is transformed or reified - inside SVG.parse that aborts the document")
+    ctx.need(n >= 10, rule, "segment transformations of nullable points not found (%d)" % n)
 
 
 # --------------------------------------------------------------------------- R09.9
